@@ -12,7 +12,10 @@ PROFILES = {
     "errors": dict(clients=2, steps=(4, 12), menu=["get", "set", "mget", "del", "mset", "ping"],
                    kinds=["ok", "err", "err", "nil"], slots=["A", "A2", "B", "C"], burst=(1, 3),
                    errcls=["ERR", "WRONGTYPE", "LOADING", "CLUSTERDOWN", "TRYAGAIN", "CROSSSLOT", "READONLY", "BUSY", "OOM",
-                           "NOSCRIPT", "MASTERDOWN", "EXECABORT", "MISCONF", "NOREPLICAS"]),
+                           "NOSCRIPT", "MASTERDOWN", "EXECABORT", "MISCONF", "NOREPLICAS",
+                           # literal error lines: empty message, one letter, look-alikes of the lines the proxy acts on
+                           "=", "=E", "=ERR", "=M", "=A", "=N", "=NOAUT", "=ERR x", "=-ERR", "=MOVE 1 2", "=AS",
+                           "=WRONGTYPE Operation against a key holding the wrong kind of value"]),
     "redirect": dict(clients=2, steps=(4, 12), menu=["get", "set", "mget", "del", "ping"],
                      kinds=["ok", "ok", "moved", "ask", "nil"], slots=["A", "B", "B2", "C"], burst=(1, 3)),
     "redirunk": dict(clients=2, steps=(4, 12), menu=["get", "set", "mget", "del", "ping"],
